@@ -330,6 +330,18 @@ def run_model(model, M, tier, seed, wdir, extra_behaviours=None):
     else:
         beh = extra_behaviours
         res["behaviours_emitted"] = res["behaviours_replayed"] = sum(1 for _ in open(beh))
+    # ---- unbounded inductive-invariant checks of the design (Apalache), where a model has them ---
+    res["proofs"] = []
+    for pr in M.get("proofs", []):
+        if extra_behaviours is not None or tier not in pr.get("tiers", ("thorough",)):
+            continue
+        t1 = time.time()
+        r = sh([os.path.join(ROOT, c) if c.startswith("lib/") else c for c in pr["cmd"]], timeout=pr.get("timeout", 3600))
+        line = [l for l in r.stdout.splitlines() if l.startswith("APALACHE")]
+        log("[%s] %s  (%.0fs)" % (model, line[-1] if line else "APALACHE: no result", time.time() - t1))
+        if r.returncode != 0:
+            raise ToolError("inductive-invariant check %s of model %s failed: %s" % (pr["name"], model, r.stdout[-1500:]))
+        res["proofs"].append(dict(name=pr["name"], result=line[-1] if line else "", wall=time.time() - t1))
     # ---- E2: replay + drive, in parallel -----------------------------------------------------
     t0 = time.time()
     jobs = []
@@ -524,6 +536,7 @@ def write_evidence(pid, P, MODELS, tier, seed, results, nviol, matched, wall):
                          conformance_drift=r["drift"], op_result_counts=r["opres"],
                          result_reused_for_identical_inputs=r["cached"]) for r in results],
             monitor_nontrivial_evaluations=moncnt,
+            unbounded_inductive_invariants=[p for r in results for p in r.get("proofs", [])],
             known_findings_matched=[dict(monitor=k[0], key=k[1], steps=v[1]) for k, v in matched.items()],
             checker_cmd="tlc (exhaustive MC_<model>.tla; trace validation Trace_<model>.tla) + harness/target/debug/<bin>",
             trusted_base=["soroban-env-host test host (atomic rollback, authorization, storage TTL)",
